@@ -112,6 +112,6 @@ example : tokenize Tables.asciiOnly "a\n".toList = .ok [⟨⟨0, 0⟩, .ident ['
 example : extractNear Tables.asciiOnly ⟨0, 7⟩ "select 1.2.3 from t".toList = .text "select 1.2.3 from".toList := by decide
 
 /-- a tab between the words is shown as a space: the excerpt reads like the piece, it is not always equal to it -/
-example : extractNear Tables.asciiOnly ⟨0, 3⟩ "ab\tcd ef".toList = .text "ab cd".toList := by decide
+example : extractNear Tables.asciiOnly ⟨0, 3⟩ "ab\tcd ef".toList = .text "ab cd ef".toList := by decide
 
 end Sqlgrep.Props.C14Lex
